@@ -821,7 +821,7 @@ fn bytes(g: &mut Gen) -> Outcome {
     let mut m = c.raw.clone();
     let n_mut = 1 + g.weighted(&[6, 1]);
     let mut classes: Vec<&'static str> = Vec::new();
-    let explicit = g.weighted(&[10, 2, 2]);
+    let explicit = g.weighted(&[10, 2, 2, 6]);
     match explicit {
         1 => {
             // wrong payload discriminator
@@ -838,6 +838,13 @@ fn bytes(g: &mut Gen) -> Outcome {
                 m.push(g.u8());
             }
             classes.push("trailing bytes");
+        }
+        3 => {
+            // structured: duplicate / remove / swap elements of one SBOR array, count kept consistent
+            match mutate_sbor_array(g, &mut m) {
+                Some(cl) => classes.push(cl),
+                None => classes.push(mutate_bytes(g, &mut m)),
+            }
         }
         _ => {
             for _ in 0..n_mut {
@@ -894,7 +901,19 @@ fn bytes(g: &mut Gen) -> Outcome {
                         ctx()
                     );
                 }
-                Err(_) => g.label("prepared but not decodable as the model"),
+                Err(e) => {
+                    // The one known, real exception: a preview payload's root signer keys are a
+                    // set in the model but are prepared as a plain list (duplicates are left to
+                    // validation, which reports DuplicateSigner).
+                    if c.kind == Kind::PreviewV2 && e.contains("DuplicateKey") {
+                        g.label("preview v2: prepared with a duplicated root signer key (model decoder rejects; left to validation)");
+                    } else {
+                        return Outcome::fail(
+                            format!("{}: payload accepted by prepare is rejected by the model decoder (not a canonical payload)", c.kind.name()),
+                            format!("model decoder: {}\n{}", e, ctx()),
+                        );
+                    }
+                }
             }
         }
         (Err(_), Ok(again)) => {
@@ -1065,7 +1084,7 @@ pub fn check() -> Check {
     Check::new(
         "C32",
         "Transaction identifiers commit to the whole transaction",
-        "part roundtrip: generated payloads of every kind (V1/V2 notarized, user dispatch, (signed) partial, preview, system, round update, flash, ledger, bare intents) must decode and re-encode to the same bytes (typed model and AnyTransaction), prepare must succeed and every named hash must equal the harness's own transcription of the documented hashing scheme (blake2 crate); 1/6 of the cases rebuild a V1 transaction through the repository's TransactionBuilder and demand the identical transaction. part perturb: exactly one model field of a V1 / V2 / partial transaction is changed; hashes of parts containing the field must change, hashes of parts not containing it must not, and all hashes must again equal the reference. part bytes: 1-2 byte-level mutations (bit flip, replace, insert, delete, truncate, append, LEB128 padding, wrong payload discriminator, trailing bytes) of a raw payload: it is rejected, or it has a different identifier and re-encodes to exactly the mutated bytes. part limits: payload length, blob count, subintent count, children-per-intent limits at limit-1 / limit / limit+1 and the V2-not-permitted switch. Non-trivial = payload with subintents, or a perturbation inside a nested part (blob, message, child list), or a mutant accepted by prepare, or an exact limit boundary.",
+        "part roundtrip: generated payloads of every kind (V1/V2 notarized, user dispatch, (signed) partial, preview, system, round update, flash, ledger, bare intents) must decode and re-encode to the same bytes (typed model and AnyTransaction), prepare must succeed and every named hash must equal the harness's own transcription of the documented hashing scheme (blake2 crate); 1/6 of the cases rebuild a V1 transaction through the repository's TransactionBuilder and demand the identical transaction. part perturb: exactly one model field of a V1 / V2 / partial transaction is changed; hashes of parts containing the field must change, hashes of parts not containing it must not, and all hashes must again equal the reference. part bytes: 1-2 byte-level mutations (bit flip, replace, insert, delete, truncate, append, LEB128 padding, wrong payload discriminator, trailing bytes) or one structured mutation (an element of an SBOR array / map duplicated, removed or two swapped, with the element count kept consistent) of a raw payload: it is rejected by prepare, or it has a different identifier, decodes as the model and re-encodes to exactly the mutated bytes (only exception: a preview payload with a duplicated root signer key, which the model's set type rejects and validation reports). part limits: payload length, blob count, subintent count, children-per-intent limits at limit-1 / limit / limit+1 and the V2-not-permitted switch. Non-trivial = payload with subintents, or a perturbation inside a nested part (blob, message, child list), or a mutant accepted by prepare, or an exact limit boundary.",
     )
     .assume("manifest_encode of the individual parts is trusted (C20 covers SBOR)")
     .part(Part::new("roundtrip", 400_000, 12_000_000, 1200, roundtrip_or_twin))
